@@ -21,6 +21,9 @@ CLAIMED = {
  'C12': ('proof', 'safety obligations at every operation that can raise a built-in exception on every path of all merges, classification and constructors: only MosRoMgrException subclasses escape', '5/C12'),
  'C10': ('proof', 'MosReader.__lt__ / MosFile.__lt__ compare numeric message ids; from_strings / from_files hand the constructor a permutation of all inputs without adjacent inversion (sorted is an assumed contract evaluated with the real __lt__); uniqueness of the ascending arrangement is a Lean/Mathlib lemma', '5/C10'),
  'C20': ('proof', '42 accessors of the 20 message classes with targets/sources + MosElement.id + 24 inspect() methods: exposed ids are exactly the texts of the named ID tags in message order, blank target -> None, inspect never raises and mentions every source', '5/C20'),
+ 'C15': ('proof', 'every documented read accessor of RunningOrder / Story / Item under RO_Inv: safety obligations (no exception on any path) + ensures equal to a direct read of the XML; RO_Inv (incl. numeric durations / parseable times where present) is preserved by every merge, which covers every reachable state', '5/C15'),
+ 'C16': ('proof', '_get_story_duration (precedence), _get_story_offsets (loop invariant: running total = prefix sum, dict keyed by story element), Story.offset/start_time/end_time, RunningOrder.start_time/end_time/duration against recursive spec functions; floats treated as reals', '5/C16'),
+ 'C17': ('proof', 'Story.script/body as filtered comprehensions checked pointwise (filter and map agree with the spec on every element), _is_technical_note, RunningOrder.script/body as the in-order concatenation of the per-story lists; string primitives uninterpreted but shared by code and spec', '5/C17'),
 }
 REASON_TODO = 'check not built yet (build in progress); not a statement about reachability of the technique'
 m = {
